@@ -8,6 +8,7 @@ from pfhedge._utils.doc import _set_attr_and_docstring
 from pfhedge._utils.str import _format_float
 from pfhedge.instruments import AmericanBinaryOption
 from pfhedge.nn.functional import bs_american_binary_delta
+from pfhedge.nn.functional import bs_american_binary_gamma
 from pfhedge.nn.functional import bs_american_binary_price
 
 from ._base import BSModuleMixin
@@ -254,7 +255,7 @@ class BSAmericanBinaryOption(BSModuleMixin):
             time_to_maturity,
             volatility,
         )
-        return super().gamma(
+        return bs_american_binary_gamma(
             log_moneyness=log_moneyness,
             max_log_moneyness=max_log_moneyness,
             time_to_maturity=time_to_maturity,
